@@ -5,9 +5,10 @@
    instantiated by the DFA contract (`dfa_fwd`, `dfa_rev`, from Spec/Regex.v through
    validator/dfa.rs: pattern 0 = the HIR, or its widened form when the match type is wide) or by
    Model/SimpleValidator.v.  Definitions only. *)
-From Boreal Require Import Base.Prelude Spec.Regex Model.Widen.
+From Boreal Require Import Base.Prelude Base.Consts Spec.Regex Model.Widen.
 
-Definition MAX_SPLIT_MATCH_LENGTH : N := 4096.
+(* re-extracted from boreal/src/matcher/validator.rs on every run (translators/consts.py -> Base/Consts.v) *)
+Definition MAX_SPLIT_MATCH_LENGTH : N := Consts.MAX_SPLIT_MATCH_LENGTH.
 
 Inductive mtype := MAscii | MWideStandard | MWideAlternate.
 Definition is_wide_mt (t : mtype) : bool := match t with MAscii => false | _ => true end.
